@@ -95,7 +95,7 @@ fn prover() -> impl Strategy<Value = Prover> {
 }
 
 fn attempt() -> impl Strategy<Value = Attempt> {
-    (cand(), prover(), prop_oneof![3 => Just(false), 2 => Just(true)], prop_oneof![3 => Just(true), 1 => Just(false)], prop_oneof![5 => Just(0u8), 1 => 1u8..25])
+    (cand(), prover(), prop_oneof![3 => Just(false), 2 => Just(true)], prop_oneof![3 => Just(true), 1 => Just(false)], prop_oneof![5 => Just(0u8), 1 => 1u8..100])
         .prop_map(|(cand, prover, bypass, operator_auth, days_before)| Attempt { cand, prover, bypass, operator_auth, days_before })
 }
 
@@ -362,8 +362,10 @@ impl Property for C03 {
                     attempted.insert(b.hash());
                 }
                 let mut nontrivial = false;
+                let mut days_passed: u32 = 0;
                 for (step, a) in attempts.iter().enumerate() {
-                    if a.days_before > 0 {
+                    if a.days_before > 0 && days_passed + a.days_before as u32 <= 300 {
+                        days_passed += a.days_before as u32;
                         advance_ledgers(&env, a.days_before as u32 * 17280);
                     }
                     let nonce = (initial.len() + step) as u8;
